@@ -10,7 +10,7 @@ class C04(SchedProp):
                  "choice provider: which pending 'e' message is popped); every execution compared with the default "
                  "engine and the possible-world reference")
     rule = ("programs of families F1-F4 whose default run is correct x {unbuffered, rc_first} + all pop orders with <= d "
-            "deviations from 'newest first' (quick d=1, thorough d=2); states = programs, transitions = choice points")
+            "deviations from 'newest first' (quick d=1, thorough d=2; a choice tree with at most 32 / 256 combinations is explored completely; at most 400 / 4000 executions per program); states = programs, transitions = choice points")
     assumptions = ["per-execution step horizon = 50x the default run's pops + 500; exceeding it is reported as livelock"]
     kinds = ["choice"]
     fixed_kinds = ["unbuffered", "rc_first"]
